@@ -15,12 +15,15 @@ def c04c_okOut : StrokeRes K → Option (List (PathEl K))
   | .ok l => some l
   | _ => none
 
+/-- `join_thresh = 2·tolerance / width`, the tolerance `finish` / `do_join` pass to round caps and joins -/
+def c04c_jt (w tol : K) : K := open Ops in (2 : K) * tol / w
+
 /-- **one segment**: `MoveTo (p0 − n), LineTo (p1 − n), end cap at p1, LineTo (p0 + n), start cap at p0`, `n = c04_norm w (p1 − p0)` -/
 theorem c04c_strokeOne (p0 p1 : Point K) (style : StrokeStyle K) (tol : K) (h : p1.peq p0 = false) :
     strokeUndashed [MoveTo p0, LineTo p1] style tol =
       .ok (MoveTo (p0 - c04_norm style.width (p1 - p0)) :: LineTo (p1 - c04_norm style.width (p1 - p0)) ::
-        (c04_endCap style p1 (p1 + c04_norm style.width (p1 - p0)) ++ [LineTo (p0 + c04_norm style.width (p1 - p0))]
-          ++ c04_startCap style p0 (c04_norm style.width (p1 - p0)))) := by
+        (c04_endCap (c04c_jt style.width tol) style p1 (p1 + c04_norm style.width (p1 - p0)) ++ [LineTo (p0 + c04_norm style.width (p1 - p0))]
+          ++ c04_startCap (c04c_jt style.width tol) style p0 (c04_norm style.width (p1 - p0)))) := by
   simp only [strokeUndashed, strokeLoop, StrokeCtx.finish, List.isEmpty_nil, if_true, h, Bool.not_false,
     StrokeCtx.do_join, StrokeCtx.do_line, List.nil_append]
   rfl
@@ -42,10 +45,10 @@ theorem c04c_strokeTwo_left (p0 p1 p2 : Point K) (style : StrokeStyle K) (tol : 
     strokeUndashed [MoveTo p0, LineTo p1, LineTo p2] style tol =
       .ok (MoveTo (p0 - c04_norm style.width (p1 - p0)) :: LineTo (p1 - c04_norm style.width (p1 - p0)) ::
         LineTo (p1 - c04_norm style.width (p2 - p1)) :: LineTo (p2 - c04_norm style.width (p2 - p1)) ::
-        (c04_endCap style p2 (p2 + c04_norm style.width (p2 - p1)) ++
+        (c04_endCap (c04c_jt style.width tol) style p2 (p2 + c04_norm style.width (p2 - p1)) ++
           [LineTo (p1 + c04_norm style.width (p2 - p1)), LineTo p1, LineTo (p1 + c04_norm style.width (p1 - p0)),
            LineTo (p0 + c04_norm style.width (p1 - p0))]
-          ++ c04_startCap style p0 (c04_norm style.width (p1 - p0)))) := by
+          ++ c04_startCap (c04c_jt style.width tol) style p0 (c04_norm style.width (p1 - p0)))) := by
   obtain ⟨w, j, ml, sc, ec⟩ := style
   simp only at hj
   subst hj
@@ -63,10 +66,10 @@ theorem c04c_strokeTwo_right (p0 p1 p2 : Point K) (style : StrokeStyle K) (tol :
     strokeUndashed [MoveTo p0, LineTo p1, LineTo p2] style tol =
       .ok (MoveTo (p0 - c04_norm style.width (p1 - p0)) :: LineTo (p1 - c04_norm style.width (p1 - p0)) :: LineTo p1 ::
         LineTo (p1 - c04_norm style.width (p2 - p1)) :: LineTo (p2 - c04_norm style.width (p2 - p1)) ::
-        (c04_endCap style p2 (p2 + c04_norm style.width (p2 - p1)) ++
+        (c04_endCap (c04c_jt style.width tol) style p2 (p2 + c04_norm style.width (p2 - p1)) ++
           [LineTo (p1 + c04_norm style.width (p2 - p1)), LineTo (p1 + c04_norm style.width (p1 - p0)),
            LineTo (p0 + c04_norm style.width (p1 - p0))]
-          ++ c04_startCap style p0 (c04_norm style.width (p1 - p0)))) := by
+          ++ c04_startCap (c04c_jt style.width tol) style p0 (c04_norm style.width (p1 - p0)))) := by
   obtain ⟨w, j, ml, sc, ec⟩ := style
   simp only at hj
   subst hj
@@ -83,9 +86,9 @@ theorem c04c_strokeTwo_skipped (p0 p1 p2 : Point K) (style : StrokeStyle K) (tol
     strokeUndashed [MoveTo p0, LineTo p1, LineTo p2] style tol =
       .ok (MoveTo (p0 - c04_norm style.width (p1 - p0)) :: LineTo (p1 - c04_norm style.width (p1 - p0)) ::
         LineTo (p2 - c04_norm style.width (p2 - p1)) ::
-        (c04_endCap style p2 (p2 + c04_norm style.width (p2 - p1)) ++
+        (c04_endCap (c04c_jt style.width tol) style p2 (p2 + c04_norm style.width (p2 - p1)) ++
           [LineTo (p1 + c04_norm style.width (p1 - p0)), LineTo (p0 + c04_norm style.width (p1 - p0))]
-          ++ c04_startCap style p0 (c04_norm style.width (p1 - p0)))) := by
+          ++ c04_startCap (c04c_jt style.width tol) style p0 (c04_norm style.width (p1 - p0)))) := by
   simp only [c04c_joinTest2] at ht
   simp only [strokeUndashed, strokeLoop, StrokeCtx.finish, List.isEmpty_nil, if_true, h1, h2, Bool.not_false,
     StrokeCtx.do_join, StrokeCtx.do_line, List.nil_append, ht, Bool.false_eq_true, if_false]
